@@ -221,7 +221,9 @@ func (w *world) build(class string, slot int, seed int) request {
 		data["collection_infos"] = []interface{}{M{"name": "coll_extra", "positions": M{vchan: position(vchan)}}}
 		r := post(req)
 		ts, _ := w.env.Store.Dump()
-		r.mustReject = len(ts) >= w.env.Cfg.MaxTaskNum // only when the limit really is reached (an earlier request of the plan may have been refused)
+		// only when the limit really is reached (an earlier request of the plan may have been refused) and the id is new
+		// (a create for an id that exists is answered with the existing task and creates nothing)
+		r.mustReject = len(ts) >= w.env.Cfg.MaxTaskNum && !w.hasTask("task-extra")
 		return r
 	case "create_rpcpos": // valid create with a position for the replicate-message channel
 		req, data := w.baseCreate(id, coll)
